@@ -43,7 +43,13 @@ func VerifC15Same() {
 	}
 	addBlank := func(i int) {
 		if i == blankAt {
-			rowsB = append(rowsB, []string{"", "  ", "\t", " \t "}[verifChoose("blankKind", 0, 3)])
+			// blank in the sense of the property: empty, or white space only -- Unicode white space, as strings.TrimSpace
+			// sees it (form feed, vertical tab, a stray CR, U+00A0, U+3000), wherever it starts
+			kinds := []string{"", "  ", "\t", " \t "}
+			if (verifN()/10)%10 == 2 {
+				kinds = append(kinds, "\f", "\v", "\r", "\u00a0", "\u3000 ", " \f") // (a job of its own: two rows)
+			}
+			rowsB = append(rowsB, kinds[verifChoose("blankKind", 0, uint(len(kinds)-1))])
 		}
 	}
 	for i := 0; i < n; i++ {
